@@ -105,6 +105,12 @@ def run(prog, chk):
         all(lf.holds(n, "self.lock") for (n, c) in se)
     mk = [n for (n, c) in lf.fl.nodes_with_call(name="pipe.make_or_pipe")]
     ok = ok and len(mk) == 1
+    # both halves on every path that creates the pipe: a half that is attached only under some condition (combined
+    # stderr, say) leaves its buffer without an event when the condition changes later
+    if ok:
+        after = [d for (d, lab) in lf.fl.cfg.succ[mk[0].id] if lab not in ("exc", "raise")]
+        for (n, c) in se:
+            ok = ok and lf.fl.cfg.dominated([lf.fl.cfg.exit.id], guard_nodes=[n.id], start=after)
     chk.ob("R1.halves-installed", "Channel.fileno", ok, fn.loc, "p1 -> in_buffer, p2 -> in_stderr_buffer, created once under Channel.lock")
     # created once: the test "is there a pipe already?" and the creation are one critical section - the creating write is
     # dominated by a test of self._pipe itself (not of a copy read earlier) made while Channel.lock is held
